@@ -18,13 +18,15 @@ const U32MAX: usize = u32::MAX as usize;
 fn limits(thorough: bool) -> Vec<usize> {
     let mut v: Vec<usize> = (0..=(if thorough { 64 } else { 16 })).collect();
     v.extend_from_slice(&[1023, 1024, 1025, 51199, 51200, 51201, U32MAX]);
+    // limits that do not fit 32 bits: every 32-bit declaration is within them
+    v.extend_from_slice(&[U32MAX + 1, U32MAX + 5, 5 * (1usize << 30), usize::MAX]);
     v
 }
 
 fn lengths_around(l: usize) -> Vec<usize> {
-    let mut v = vec![0usize, 1, l.saturating_sub(1), l, l.saturating_add(1).min(U32MAX), (2 * l + 1).min(U32MAX), U32MAX, U32MAX - 1];
+    let mut v = vec![0usize, 1, 5, 51201, l.saturating_sub(1).min(U32MAX), l.min(U32MAX), l.saturating_add(1).min(U32MAX), l.saturating_mul(2).saturating_add(1).min(U32MAX), U32MAX, U32MAX - 1];
     // declared lengths that do not fit 32 bits: never acceptable, and never to be reported as another number
-    v.extend_from_slice(&[U32MAX + 1, U32MAX + 2, U32MAX + 1 + l, 100_000_000_000]);
+    v.extend_from_slice(&[U32MAX + 1, U32MAX + 2, (U32MAX + 1).saturating_add(l.min(U32MAX)), 100_000_000_000]);
     v.sort_unstable();
     v.dedup();
     v
@@ -365,7 +367,7 @@ pub fn run(ctx: &mut Ctx) {
                 }
                 let mut rng = ctx.item_rng(0xC04, idx);
                 let h = head(n, &mut rng, variant);
-                if ctx.rep.samples.len() < 3 && n == l + 1 {
+                if ctx.rep.samples.len() < 3 && Some(n) == l.checked_add(1) {
                     ctx.rep.sample(J::obj(vec![("family", J::s("payload")), ("limit", J::u(l as u64)), ("declared", J::u(n as u64)), ("head", J::s(&show(&h)))]));
                 }
                 // header block in one read, no body byte
